@@ -279,6 +279,8 @@ class CallMixin:
             return FuncV('builtin.' + st.heap[v.oid].pykind)
         if is_bool(v):
             return FuncV('builtin.bool')
+        if is_real(v):
+            return FuncV('builtin.float')
         raise Unsupported('type() of %r' % type(v))
 
     # ------------------------------------------------------------------ spec functions
@@ -455,6 +457,11 @@ class CallMixin:
         n = zint(obj.length)
         st.heap[recv.oid] = obj.clone(arr=z3.Store(obj.arr, n, v), length=n + 1)
         return None
+
+    def me_lower(self, recv, args, kwargs, node, st):
+        if isinstance(recv, str):
+            return recv.lower()
+        raise Unsupported('lower() of a non-constant string')
 
     def me_format(self, recv, args, kwargs, node, st):
         return '<str>'
